@@ -244,7 +244,7 @@ def r10f(ctx):
             for a in walk_no_nested(f.node):
                 if isinstance(a, ast.Assign) and len(a.targets) == 1 and isinstance(a.targets[0], ast.Name) and is_table(a.value, aliases):
                     aliases.add(a.targets[0].id)
-        for loop in [n for n in walk_no_nested(f.node) if isinstance(n, ast.For) and ("namelist" in ast.unparse(n.iter) or "_get_folder_parts" in ast.unparse(n.iter))]:
+        for loop in [n for n in walk_no_nested(f.node) if isinstance(n, ast.For) and any(k in ast.unparse(n.iter) for k in ("namelist", "infolist", "_get_folder_parts"))]:
             # every way of storing into the part table inside the loop
             stores = []  # (statement, key expression, kind)
             for a in ast.walk(loop):
